@@ -176,7 +176,7 @@ def run(ctx):
                (n.startswith("rrdp::") or n.startswith("<rrdp::") or n.startswith("xml::decode::"))]
     C04.check_reachable_sites(ctx, f, entries, "the RRDP parsers, processors and notification-file checks", 120, 150)
     K.check_attr_values_unescaped(ctx, f)
-    K.check_text_impls_escape(ctx, f)
+    check_text_impls_escape(ctx, f)
     # the root element of the three RRDP documents is read under one and the same (header) limit
     roots_ = {}
     elems = {}
@@ -231,8 +231,10 @@ def run(ctx):
     ]
     for label, wrx, rrx in pairs:
         wsets = {}
+        wbodies = _with_private_helpers(f, [n for n in f.bodies if any(re.search(x, n) for x in wrx)])
+        rbodies = _with_private_helpers(f, [n for n in f.bodies if any(re.search(x, n) for x in rrx)])
         for n, b in f.bodies.items():
-            if not any(re.search(x, n) for x in wrx):
+            if n not in wbodies:
                 continue
             for c in b.calls():
                 if b.is_cleanup(c.bb) or not (c.res or "").startswith("xml::encode::Element") or c.name != "attr":
@@ -246,7 +248,7 @@ def run(ctx):
             wsets[el].discard(b"xmlns")
         rsets = []
         for n, b in f.bodies.items():
-            if not any(re.search(x, n) for x in rrx) or "::{closure" not in n:
+            if n not in rbodies or "::{closure" not in n:
                 continue
             if b.arg_count < 2 or not b.local_ty(2).startswith("&[u8]"):
                 continue
@@ -281,7 +283,7 @@ def run(ctx):
         wnames = {const_local(x) for x in wel}
         rnames = set()
         for n, b in f.bodies.items():
-            if not any(re.search(x, n) for x in rrx):
+            if n not in rbodies:
                 continue
             oc = outcome(b)
             for w, leaf in slice_patterns(b, None, "local"):
@@ -364,20 +366,24 @@ def run(ctx):
         ctx.ob("R-GRD", "sort_and_verify_deltas:consecutive", okg,
                "sort_and_verify_deltas returns true only if each retained delta's serial is the previous one plus 1", where=sb.loc,
                detail=None if okg else det)
+        # "serial + 1" as a panicking addition: an Add overflow assert one of whose operands is a delta's serial (read
+        # through the accessor / field, or carried in a local)
+        ser_rx = re.compile(r"\b\w+::serial\(|\.serial\b" + ("|\\$(?:%s)\\b" % "|".join(map(re.escape, sorted(carried))) if carried else ""))
         overflow = []
         for bi, blk in enumerate(sb.blocks):
             t = blk["term"]
             if t["t"] == "assert" and t["kind"].startswith("Overflow:Add"):
                 ops = [render(strip_deep(s.operand(o))) for o in t["ops"]]
-                if any(re.search(r"\$(?:%s)\b" % "|".join(map(re.escape, sorted(carried))), o) for o in ops) if carried else False:
+                if any(ser_rx.search(o) for o in ops):
                     overflow.append(sb.where(bi))
         ctx.ob("R-PANIC", "sort_and_verify_deltas:serial+1-cannot-overflow", not overflow,
                "the successor of a delta serial taken from the (untrusted) notification file is computed without an "
                "overflowing addition", where=overflow[0] if overflow else sb.loc, detail=overflow or None)
         srt = [c for c in sb.calls() if re.match(r"^sort", c.name or "") and not sb.is_cleanup(c.bb)]
-        ctx.ob("R-CHK", "sort_and_verify_deltas:sorted-first", len(srt) == 1 and all(
-            x.bb in sb.reachable(srt[0].bb) for x in sb.calls() if x.name == "serial" and not sb.is_cleanup(x.bb)),
-            "the deltas are sorted by serial before the chain is checked", where=sb.loc)
+        after = sb.reachable(srt[0].bb) if len(srt) == 1 else set()
+        uses = [x.bb for x in sb.calls() if x.name == "serial" and not sb.is_cleanup(x.bb)] + list(det.get("check_blocks", ()))
+        ctx.ob("R-CHK", "sort_and_verify_deltas:sorted-first", len(srt) == 1 and all(bb in after for bb in uses),
+               "the deltas are sorted by serial before the chain is checked", where=sb.loc)
 
 
 # ---------------------------------------------------------------------------------------------
@@ -730,6 +736,83 @@ def _forall_deltas(f, b, lit_for, need_update=None):
     det["check_blocks"] = sorted(bb for bb, _, _ in sites)
     return ok, det
 
+
+
+def _with_private_helpers(f, names, mod="rrdp::"):
+    """The bodies `names` together with the code they delegate to inside the module: their closures and the private
+    (not exported) functions of the module they call, transitively.  A parser / writer is the same parser / writer when
+    part of it is moved into a private helper; public functions are other entry points and are not followed."""
+    from engine.callgraph import CallGraph
+    cg = CallGraph(f)
+    seen = set(names)
+    roots = {root_fn(f, n) for n in seen}
+    work = list(seen)
+    while work:
+        n = work.pop()
+        for m in cg.edges(n):
+            if m in seen or m not in f.bodies:
+                continue
+            rm = root_fn(f, m)
+            rec = f.fns.get(rm) or {}
+            if "::{closure" in m and rm in roots:
+                pass
+            elif m.startswith(mod) and "::{closure" not in m and rec and rec.get("vis") != "pub" and not rec.get("exported"):
+                roots.add(m)
+            else:
+                continue
+            seen.add(m)
+            work.append(m)
+    return seen
+
+
+def check_text_impls_escape(ctx, f, rule="R-CHK"):
+    """Every implementation of xml::encode::Text::write_escaped sends all of its bytes through TextEscape::write_escaped
+    (directly or via the DisplayText adaptor) — there is no path that writes the bytes unescaped.
+
+    Same rule (and obligation keys) as props.common.check_text_impls_escape, which only C09 and C11 use; in addition
+    to `?` / `match` on the escaping call's result it reads the spelling `if call.is_ok() { return Ok(()) }`
+    (and `is_err`): the edge on which `is_ok(<escaping call>)` is true is one on which the escaping call was made
+    and succeeded."""
+    def sink(c):
+        return (c.res or "") == "xml::encode::TextEscape::write_escaped" or \
+            (c.name == "write_fmt" and "DisplayText::new(" in (K.arg_renders(c) or [""])[0])
+
+    def sink_term(t):
+        t = strip_deep(t)
+        if t[0] != "call":
+            return False
+        info = t[3] or {}
+        if (info.get("res") or info.get("fn") or "") == "xml::encode::TextEscape::write_escaped":
+            return True
+        return info.get("name") == "write_fmt" and bool(t[2]) and "DisplayText::new(" in render(t[2][0])
+
+    def is_ok_edge(bd, sy, bb):
+        t = bd.term(bb)
+        if t["t"] != "switch" or t.get("dty") != "bool":
+            return None
+        at = bool_atom(sy.operand(t["discr"]))
+        if not at or not isinstance(at[0], tuple) or at[0][2] not in ("is_ok", "is_err") or len(at[1]) != 1:
+            return None
+        if not re.match(r"^(std|core)::result::Result::<", at[0][1]) or not sink_term(at[1][0]):
+            return None
+        fe, te = switch_bool_edges(bd, bb)
+        return [(bb, te if (at[0][2] == "is_ok") == at[3] else fe)]
+    n = 0
+    for name, b in sorted(f.bodies.items()):
+        m = re.match(r"^<(.+) as xml::encode::Text>::write_escaped$", name)
+        disp = re.match(r"^<xml::encode::DisplayText<.*> as std::fmt::Write>::write_str$", name)
+        if not m and not disp:
+            continue
+        n += 1
+        ctx.saw_fn(name)
+        mp = MustPass(f, sink, guard_fn=is_ok_edge, name="TextEscape::write_escaped")
+        ok = mp.holds(name)
+        raw = [c.where() for c in b.calls() if not b.is_cleanup(c.bb) and c.name in ("write_all", "write") and
+               (c.trait or "").endswith("io::Write")]
+        ctx.ob(rule, "%s:escapes-everything" % short(name), ok and not raw,
+               "%s writes nothing that did not pass TextEscape::write_escaped" % short(name), where=b.loc,
+               detail={"unescaped_writes": raw, "path": None if ok else K.why(f, mp, name)})
+    ctx.floor(rule, "implementations of Text::write_escaped (and the Display adaptor)", n, 3)
 
 
 def _ord(b, c):
